@@ -45,10 +45,13 @@ theorem c04_weightedSize_is_mapped_weight (p0 : Policy)
     let s := ops.foldl jstep { S := [], p := p0, live := [] }; s.p.weightedSize = wsum s.p s.live :=
   jrun_weight p0 h0 ops
 
-/-- C04: **the bound after every operation**: one joint step from a state satisfying the invariant either is not a step of the
+/-- C04: **the bound after every operation** (every operation that ends with an eviction pass; the removal of an expired node by
+    the timer wheel, `.expire`, runs none of its own — it only shrinks the mapped set and is followed by the pass of the same
+    maintenance run): one joint step from a state satisfying the invariant either is not a step of the
     cache (precondition failed: state unchanged) or ends with the mapped weight within the maximum, or with only weightless
     entries mapped -/
-theorem c04_bound_after_every_operation (s : JState) (op : JOp) (h : JInv s.S s.p s.live) :
+theorem c04_bound_after_every_operation (s : JState) (op : JOp) (h : JInv s.S s.p s.live)
+    (hop : ∀ old, op ≠ .expire old) :
     jstep s op = s ∨ (jstep s op).p.weightedSize.toNat ≤ (jstep s op).p.maximum.toNat ∨
       (∀ id ∈ (jstep s op).live, ((jstep s op).p.node id).weight = 0) := by
   have hnext := jstep_inv s op h
@@ -86,6 +89,7 @@ theorem c04_bound_after_every_operation (s : JState) (op : JOp) (h : JInv s.S s.
       unfold jstep at hnext ⊢
       simp only [h2, not_true_eq_false, ↓reduceIte] at hnext ⊢
       exact key _ _ _ (Reach.delete old (Reach.retire old h.reach)) hnext
+  | expire old => exact absurd rfl (hop old)
   | read id => right; exact key _ _ _ (Reach.access id h.reach) hnext
   | climb => right; exact key _ _ _ (Reach.climb h.reach) hnext
   | setMax m => right; exact key _ _ _ (Reach.setmax m h.reach) hnext
